@@ -151,6 +151,32 @@ theorem C11_ok_only_if_starting (cur : St) :
   · intro h; simp [step, h]
   · intro h; subst h; decide
 
+/-- if nobody reports `OK` explicitly, every delivered `OK` is the automatic one and comes
+directly after `Starting` — for every report sequence (and, through `C11_interleaving`, for every
+interleaving of concurrent reporters: a report is one atomic step) -/
+theorem C11_auto_ok_after_starting (cur : St) (reps : List Report) (h : ∀ r ∈ reps, r ≠ .status .ok) :
+    okPred cur (run cur reps) = true := by
+  induction reps generalizing cur with
+  | nil => simp [run, okPred]
+  | cons r rs ih =>
+    have hrs : ∀ r ∈ rs, r ≠ .status .ok := fun r hr => h r (by simp [hr])
+    cases r with
+    | status s =>
+      have hs : s ≠ .ok := fun e => h (.status s) (by simp) (by rw [e])
+      by_cases ha : allowed cur s = true
+      · simp only [run, step, transition, ha, if_true, okPred, Bool.and_eq_true, Bool.or_eq_true, bne_iff_ne, ne_eq]
+        exact ⟨Or.inl hs, ih s hrs⟩
+      · simp only [run, step, transition, ha]
+        exact ih cur hrs
+    | okIfStarting =>
+      by_cases hc : cur = .starting
+      · subst hc
+        have ha : allowed .starting .ok = true := by decide
+        simp only [run, step, transition, ha, if_true, okPred, Bool.and_eq_true, Bool.or_eq_true]
+        exact ⟨Or.inr (by decide), ih .ok hrs⟩
+      · simp only [run, step, hc, if_false]
+        exact ih cur hrs
+
 /-! ## many instances, any interleaving: each instance's projection is its own sequential run -/
 
 def projRep (i : Inst) (p : Inst × Report) : Option Report := if p.1 = i then some p.2 else Option.none
